@@ -45,7 +45,7 @@ RULE = ('random histories in three workloads (server against scripted client, cl
         'either side, pushed streams), ENABLE_PUSH 0/1 at handshake and changed mid-history with the ACK delivered 0..k steps later, valid and '
         'invalid request header lists, fresh / odd / reused promised ids, header blocks split over CONTINUATION frames, then traffic on the promised '
         'stream; non-trivial = at least one refused or disabled push judged; distinct = hash of the step list')
-MINIMA = {'server_push_judged': 8000, 'server_push_expected_ok': 2500, 'server_push_refused:push-disabled': 500,
+MINIMA = {'parents_whose_request_ended_with_trailers': 1000, 'server_push_judged': 8000, 'server_push_expected_ok': 2500, 'server_push_refused:push-disabled': 500,
           'server_push_refused:parent-state': 1000, 'server_push_refused:bad-headers': 300, 'server_push_refused:bad-promised-id': 300,
           'server_push_refused:pushed-parent': 200, 'server_push_block_decoded': 2500, 'server_push_while_setting_changed_midway': 500,
           'client_promise_judged': 8000, 'client_promise_accepted': 2000, 'client_promise_disabled_conn_error': 400,
@@ -265,6 +265,13 @@ def server_case(idx, rng, rep):
         es = rng.random() < 0.4
         steps.append(('P-open', sid, es))
         deliver(wire.build_headers(sid, hb(scen.REQ), end_stream=es), 'HEADERS')
+        if not es and st['alive'] and rng.random() < 0.25:
+            # the request goes on with a body and ends with trailers: the stream is as good a parent as any
+            steps.append(('P-body-and-trailers', sid))
+            deliver(wire.build_data(sid, b'body'), 'DATA')
+            deliver(wire.build_headers(sid, hb([(b'x-request-trailer', b'1')]), end_stream=True), 'HEADERS')
+            es = True
+            rep.count('parents_whose_request_ended_with_trailers')
         par[sid] = {'e_ended': False, 'p_ended': es, 'reset': False, 'resp': False}
 
     def mutate_parent():
@@ -419,6 +426,16 @@ def client_case(idx, rng, rep):
         r = t.call('send_headers', sid, scen.REQ, end_stream=es)
         if r.exc is not None:
             return fail('C22:valid-step-refused:send_headers:' + core.exc_key(r.exc), repr(r.exc))
+        if not es and rng.random() < 0.25:
+            # the request goes on with a body and ends with trailers: pushes on it are as welcome as on any other stream
+            steps.append(('E-body-and-trailers', sid))
+            r = t.call('send_data', sid, b'body')
+            if r.exc is None:
+                r = t.call('send_headers', sid, [(b'x-request-trailer', b'1')], end_stream=True)
+            if r.exc is not None:
+                return fail('C22:valid-step-refused:request-trailers:' + core.exc_key(r.exc), repr(r.exc))
+            es = True
+            rep.count('parents_whose_request_ended_with_trailers')
         par[sid] = {'e_ended': es, 'p_ended': False, 'reset_e': False, 'reset_p': False, 'resp': False}
 
     def mutate_parent():
